@@ -53,11 +53,14 @@ def gen_pair(rng, tier):
         m, n = int(rng.choice([127, 128, 129, 200, 256, 257, 300])), int(rng.integers(100, 301))
     if rng.random() < 0.1:
         m, n = [(0, 0), (0, 3), (4, 0), (1, 1), (1, 2)][int(rng.integers(0, 5))]
-    scale = float(rng.choice([1e-3, 0.1, 1, 1, 1, 10, 1e3]))
-    kind = str(rng.choice(["float", "cluster", "dyadic", "diagheavy", "grid"]))
+    scale = float(rng.choice([1e-3, 0.1, 1, 1, 1, 10, 1e3, 1e-12, 2.0 ** -34, 1e-9, 1e9]))
+    kind = str(rng.choice(["float", "cluster", "dyadic", "diagheavy", "grid", "decimal", "h0"]))
     A, B = gen.diagram(rng, m, kind, scale), gen.diagram(rng, n, kind, scale)
     if rng.random() < 0.06 and m >= 2:
         B = gen.repaired(rng, A)        # same births and same deaths, paired differently
+    elif rng.random() < 0.06 and m >= 1:
+        B = A + rng.normal(0, float(rng.choice([1e-9, 1e-7, 1e-4])) * scale, A.shape)      # a copy perturbed in place order (stability experiments)
+        B[:, 1] = np.maximum(B[:, 1], B[:, 0])
     if rng.random() < 0.15 and m and n:
         A = gen.specialize(rng, A, scale); B = gen.entangle(rng, A, gen.specialize(rng, B, scale))
     sign = str(rng.choice(["pos", "neg", "mixed", "pos"]))
@@ -129,7 +132,7 @@ def run_case(ctx, k, rng):
     if not ctx.check("returns a value", isinstance(v, (int, float, np.floating)) and math.isfinite(v), got=repr(v)):
         return
     v = float(v)
-    ref = ref_sw(A, B, M)
+    ref = ref_sw(A0, B0, M)
     negsum = bool(np.any(A.sum(axis=1) < 0)) if len(A) else False
     negsum = negsum or (bool(np.any(B.sum(axis=1) < 0)) if len(B) else False)
     ctx.check("value==averaged 1-D transport cost", abs(v - ref) <= tol(A, B), got=v, ref=ref, M=M,
@@ -151,6 +154,16 @@ def run_case(ctx, k, rng):
         except Exception as e:
             ctx.exception("integer arrays == float arrays of the same values", e)
         ctx.set_payload({"PD1": A, "PD2": B, "M": M})
+    if len(A) and len(B) and rng.random() < 0.12:
+        PA, PB = A0.copy(), B0.copy()
+        try:
+            first = float(f(PA, PB))
+            how = vforms.update_in_place(rng, PA if rng.random() < 0.7 else PB, sc)
+            v_now, rfu = float(f(PA, PB)), ref_sw(PA.copy(), PB.copy(), M)
+            ctx.check("after an in-place update the value is that of the current contents", abs(v_now - rfu) <= 1e-6 * scale_of(PA, PB) * (len(PA) + len(PB) + 1),
+                      got=v_now, ref_on_current_values=rfu, before_update=first, update=how)
+        except Exception as e:
+            ctx.exception("after an in-place update the value is that of the current contents", e)
     if rng.random() < 0.06:
         ia, fa_, da = vforms.near_limit_int_diagram(rng, int(rng.integers(1, 8)), positive_length=False)
         ib, fb_, db = vforms.near_limit_int_diagram(rng, int(rng.integers(1, 8)), dtypes=(np.dtype(da).type,), positive_length=False)
